@@ -189,8 +189,8 @@ Proof.
   - (* RenameSpace *)
     unfold step_rename_space, reject. destruct s as [|x t]; [exact N|].
     destruct (negb (has_space st (x :: t))) eqn:H; [exact N|]. apply negb_false_iff in H.
-    destruct (negb (can_add_space st _ new)); [exact N|].
     destruct (negb (is_valid_name new)) eqn:V; [exact N|]. apply negb_false_iff in V.
+    destruct (negb (can_add_space st _ new)); [exact N|].
     simpl.
     destruct N as [K C]. apply has_space_In in H. destruct (K _ H) as [Np Vp]. split.
     + unfold keys, relabel. simpl. rewrite map_map. simpl. intros q I.
